@@ -13,8 +13,12 @@
 (*   - StepOK: every code edge is a step of Pipeline's Next - the           *)
 (*     implementation-level refinement (reported as spec drift, not as a    *)
 (*     property violation, when it fails)                                   *)
+(*   - Refines0 .. RefinesLast (MC_PipelineProj): the projection of the     *)
+(*     code's behaviour onto one buffer is a behaviour of OneBuffer.tla -   *)
+(*     binds the every-T argument of OneBuffer to the code (also a drift    *)
+(*     note when it fails)                                                  *)
 (***************************************************************************)
-EXTENDS MC_Pipeline, Json, IOUtils
+EXTENDS MC_PipelineProj, Json, IOUtils
 
 Nodes == ndJsonDeserialize(IOEnv.NODES)
 VARIABLE node
